@@ -1,6 +1,6 @@
 #!/bin/bash
 # run every thorough check once, sequentially; summary lines to stdout
-cd "$(dirname "$0")/.."
+cd "$(dirname "$0")/.." && mkdir -p work
 for id in C01 C02 C03 C04 C05 C08 C09 C10 C11 C12 C13 C14 C15 C16 C17 C18 C19 C20 C06 C07; do
   s=$(date +%s)
   ./check $id thorough > work/thorough-$id.log 2>&1
